@@ -26,6 +26,24 @@
 (*   merge       `wrgl merge heads/b OTHER [--ff-only|--no-ff|--no-gui]`   *)
 (*   create/delete   `wrgl branch create|delete` on L or R                 *)
 (*   prune       on L;   export  on L or R                                 *)
+(* Growth (second round):                                                  *)
+(*   reset       `wrgl reset b <commit sum>` on L: a move the user asks    *)
+(*               for explicitly (counts as forced for RefsForward)         *)
+(*   copy/move   `wrgl branch create NEW --copy|--move OLD` on L or R: the *)
+(*               ref AND its log are copied / renamed                      *)
+(*   pushall     `wrgl push --all [--force]`: every branch with an         *)
+(*               upstream, in name order, one push each; the first branch  *)
+(*               that does not exist locally ends the command with an error*)
+(*   pullall     `wrgl pull --all [--force] [--ff-only]`: one pull per     *)
+(*               branch in name order, the first failing pull ends it      *)
+(*   merge/pull --no-commit: a clean merge is written to MERGE_<sums>.csv, *)
+(*               no commit, no ref moves                                   *)
+(*   merge --commit-csv F: a merge commit with the given table (parents:   *)
+(*               the diverged commits), the way conflicts are resolved     *)
+(*               without the interactive tool                              *)
+(*   log / reflog  observers: `wrgl log b` lists exactly the ancestry of   *)
+(*               the head, children before parents; `wrgl reflog ref` has  *)
+(*               one line per log entry                                    *)
 (*                                                                         *)
 (* What the command line does with a non-fast-forward merge                *)
 (* (cmd/wrgl/merge_cmd.go runMerge):                                       *)
@@ -63,6 +81,11 @@ vars == <<commits, lh, lp, ll, rh, rp, rl, synced, last, hist>>
 View == <<commits, lh, lp, rh, rp, synced>>
 
 Keys   == 1..NK
+\* the branch names in lexicographic order: what `push --all` / `pull --all` iterate over
+\* (TLC does not compare strings: the order of every name a configuration may use is written down)
+KnownNames  == <<"dev", "main", "topic">>
+BranchOrder == SelectSeq(KnownNames, LAMBDA b : b \in Branches)
+ASSUME \A b \in Branches : \E i \in DOMAIN KnownNames : KnownNames[i] = b
 H(b)   == "heads/" \o b
 RT(b)  == "remotes/origin/" \o b
 Full   == [k \in Keys |-> 1]
@@ -116,18 +139,22 @@ KindOf(s, mode) ==
     [] s = "behind"    -> IF mode = "noff" THEN "merge-commit" ELSE "self-ff"
     [] s = "ahead"     -> IF mode = "noff" THEN "merge-commit" ELSE "ff"
     [] s = "no-base"   -> "no-base"
-    [] s = "clean"     -> IF mode = "ffonly" THEN "ffonly-rejected" ELSE IF mode = "nogui" THEN "nogui-clean" ELSE "real"
-    [] s = "conflict"  -> IF mode = "ffonly" THEN "ffonly-rejected" ELSE IF mode = "nogui" THEN "nogui-conflict" ELSE "gui"
+    [] s = "clean"     -> CASE mode = "ffonly" -> "ffonly-rejected" [] mode = "nogui" -> "nogui-clean"
+                            [] mode = "nocommit" -> "nocommit-clean" [] mode = "csv" -> "csv-commit" [] OTHER -> "real"
+    [] s = "conflict"  -> CASE mode = "ffonly" -> "ffonly-rejected" [] mode = "nogui" -> "nogui-conflict"
+                            [] mode = "csv" -> "csv-commit" [] OTHER -> "gui"
 MergeKinds == {"identical", "self-ff", "ff", "merge-commit", "no-base", "ffonly-rejected",
-               "nogui-clean", "nogui-conflict", "real"}
-MergeModes == {"default", "ffonly", "noff", "nogui"}
-NeedsCommit(kind) == kind \in {"merge-commit", "real"}
+               "nogui-clean", "nogui-conflict", "real", "nocommit-clean", "csv-commit"}
+MergeModes == {"default", "ffonly", "noff", "nogui", "nocommit", "csv"}
+NeedsCommit(kind) == kind \in {"merge-commit", "real", "csv-commit"}
 \* the options under which a kind is driven (an option that does not matter for the kind is left out)
 ModesFor(kind) == CASE kind = "ff" -> {"default", "ffonly"}
                     [] kind = "merge-commit" -> {"noff"}
                     [] kind = "ffonly-rejected" -> {"ffonly"}
                     [] kind \in {"nogui-clean", "nogui-conflict"} -> {"nogui"}
                     [] kind = "real" -> {"default", "noff"}
+                    [] kind = "nocommit-clean" -> {"nocommit"}
+                    [] kind = "csv-commit" -> {"csv"}
                     [] OTHER -> {"default"}
 
 \* the merge stage on a repository state (cs, h, p, g): branch ref n, other commit o, the model's alt
@@ -142,11 +169,12 @@ MS(cs, h, p, g, n, o, kind, alt) ==
        [] kind = "ff"        -> [same EXCEPT !.h = Put(h, n, o), !.g = Bump(g, {n})]
        [] kind = "merge-commit" -> With(IF IsAnc(ParOf(cs), a, o) THEN cs[o].content ELSE cs[a].content)
        [] kind = "real"      -> With(alt[3])
-       [] kind \in {"nogui-clean", "nogui-conflict"} -> same
+       [] kind = "csv-commit" -> With(cs[a].content)            \* the file given: "ours" (the harness writes it)
+       [] kind \in {"nogui-clean", "nogui-conflict", "nocommit-clean"} -> same
        [] kind \in {"no-base", "ffonly-rejected"}    -> [same EXCEPT !.ok = FALSE]
 \* exported with the step: the ref merged, the model's base, and the outcome for EVERY admissible base
 MX(cs, a, o, on, kind, alt) ==
-  IF kind \in {"real", "nogui-clean", "nogui-conflict"}
+  IF kind \in {"real", "nogui-clean", "nogui-conflict", "nocommit-clean"}
   THEN [other |-> on, base |-> alt[1], alts |-> Alts(cs, a, o)] ELSE [other |-> on, base |-> 0, alts |-> {}]
 
 -----------------------------------------------------------------------------
@@ -194,12 +222,13 @@ CommitR == TRUE /\ \E b \in Branches, k \in Keys, e \in Edits : CommitOn("R", b,
 -----------------------------------------------------------------------------
 (* FETCH (all branches); the outcome is computed once per force flag *)
 FetchSpecs  == {[src |-> H(b), dst |-> RT(b), force |-> FALSE] : b \in Branches}
-Fx(force) ==
-  LET Lr == Rec(lh, lp)
+FxOf(h0, p0, g0, force) ==
+  LET Lr == Rec(h0, p0)
       Rr == Rec(rh, rp)
       h  == FetchRefs(Par, Lr, Rr, FetchSpecs, force, 0)
-  IN [h |-> h, p |-> lp \cup FetchNewCommits(Par, Lr, Rr, FetchSpecs),
-      g |-> Bump(ll, Changed(lh, h)), rej |-> FetchRejected(Par, Lr, Rr, FetchSpecs, force)]
+  IN [h |-> h, p |-> p0 \cup FetchNewCommits(Par, Lr, Rr, FetchSpecs),
+      g |-> Bump(g0, Changed(h0, h)), rej |-> FetchRejected(Par, Lr, Rr, FetchSpecs, force)]
+Fx(force) == FxOf(lh, lp, ll, force)
 
 \* pick = "any" or the one outcome wanted (the split form of Next, used for -coverage)
 FetchAny(pick) ==
@@ -257,6 +286,8 @@ MergeNoFF        == TRUE /\ MergeAny("merge-commit")
 MergeNoBase      == TRUE /\ MergeAny("no-base")
 MergeFFOnlyRej   == TRUE /\ MergeAny("ffonly-rejected")
 MergeNoGuiClean  == TRUE /\ MergeAny("nogui-clean")
+MergeNoCommit    == TRUE /\ MergeAny("nocommit-clean")
+MergeCsvCommit   == TRUE /\ MergeAny("csv-commit")
 MergeNoGuiConfl  == TRUE /\ MergeAny("nogui-conflict")
 MergeReal        == TRUE /\ MergeAny("real")
 
@@ -264,10 +295,10 @@ MergeReal        == TRUE /\ MergeAny("real")
 (* PULL b = fetch (all branches), then merge b with its remote-tracking ref.            *)
 (* A rejected fetch ends the command with an error (the refs that could move did move). *)
 (* A branch that does not exist locally is created from the remote-tracking ref.        *)
-PullModes == {"default", "ffonly", "nogui"}
+PullModes == {"default", "ffonly", "nogui", "nocommit"}
 PSit(fx, b) ==
   IF fx.rej # {} THEN [s |-> "fetch-rejected", alt |-> NoAlt]
-  ELSE IF H(b) \notin DOMAIN lh THEN [s |-> IF RT(b) \in DOMAIN fx.h THEN "created" ELSE "nothing", alt |-> NoAlt]
+  ELSE IF H(b) \notin DOMAIN fx.h THEN [s |-> IF RT(b) \in DOMAIN fx.h THEN "created" ELSE "nothing", alt |-> NoAlt]
   ELSE IF RT(b) \notin DOMAIN fx.h \/ fx.h[RT(b)] = fx.h[H(b)] THEN [s |-> "no-heads", alt |-> NoAlt]
   ELSE Sit(commits, fx.h[H(b)], fx.h[RT(b)])
 PullAny(pick) ==
@@ -298,6 +329,7 @@ PullFF         == TRUE /\ PullAny("ff")
 PullNoBase     == TRUE /\ PullAny("no-base")
 PullFFOnlyRej  == TRUE /\ PullAny("ffonly-rejected")
 PullNoGuiClean == TRUE /\ PullAny("nogui-clean")
+PullNoCommit   == TRUE /\ PullAny("nocommit-clean")
 PullNoGuiConfl == TRUE /\ PullAny("nogui-conflict")
 PullReal       == TRUE /\ PullAny("real")
 
@@ -347,6 +379,119 @@ ExportL == TRUE /\ Export("L")
 ExportR == TRUE /\ Export("R")
 
 -----------------------------------------------------------------------------
+(* PULL --all: one pull per branch with an upstream (all of them), in name order; the first  *)
+(* pull that fails ends the command.  Only outcomes that need no new commit and no           *)
+(* interactive tool are driven through --all (single pulls drive the others).                *)
+PullAllKinds == {"fetch-rejected", "created", "nothing", "no-heads", "identical", "self-ff", "ff", "no-base",
+                 "ffonly-rejected"}
+PullOne(h0, p0, g0, b, force, mode) ==
+  LET fx      == FxOf(h0, p0, g0, force)
+      sit     == PSit(fx, b)
+      early   == sit.s \in {"fetch-rejected", "created", "nothing", "no-heads"}
+      kind    == IF early THEN sit.s ELSE KindOf(sit.s, mode)
+      fetched == [cs |-> commits, h |-> fx.h, p |-> fx.p, g |-> fx.g, ok |-> TRUE]
+  IN [kind |-> kind, rej |-> fx.rej,
+      r |-> IF kind \notin PullAllKinds THEN fetched
+            ELSE CASE kind = "fetch-rejected" -> [fetched EXCEPT !.ok = FALSE]
+                   [] kind = "created"  -> [fetched EXCEPT !.h = Put(fx.h, H(b), fx.h[RT(b)]), !.g = Bump(fx.g, {H(b)})]
+                   [] kind = "nothing"  -> [fetched EXCEPT !.ok = FALSE]
+                   [] kind = "no-heads" -> fetched
+                   [] OTHER -> MS(commits, fx.h, fx.p, fx.g, H(b), fx.h[RT(b)], kind, sit.alt)]
+RECURSIVE PullSeq(_, _, _, _, _, _)
+PullSeq(st, i, force, mode, rej, kinds) ==
+  IF i > Len(BranchOrder) THEN [h |-> st.h, p |-> st.p, g |-> st.g, ok |-> TRUE, rej |-> rej, kinds |-> kinds]
+  ELSE LET one == PullOne(st.h, st.p, st.g, BranchOrder[i], force, mode) IN
+       IF one.kind \notin PullAllKinds
+       THEN [h |-> st.h, p |-> st.p, g |-> st.g, ok |-> FALSE, rej |-> rej, kinds |-> Append(kinds, "undriven")]
+       ELSE IF ~one.r.ok
+       THEN [h |-> one.r.h, p |-> one.r.p, g |-> one.r.g, ok |-> FALSE, rej |-> rej \cup one.rej, kinds |-> Append(kinds, one.kind)]
+       ELSE PullSeq([h |-> one.r.h, p |-> one.r.p, g |-> one.r.g], i + 1, force, mode, rej \cup one.rej, Append(kinds, one.kind))
+SeqVals(q) == {q[i] : i \in DOMAIN q}
+PullAll(pick) ==
+  \E force \in BOOLEAN, mode \in {"default", "ffonly"} :
+    \E r \in {PullSeq([h |-> lh, p |-> lp, g |-> ll], 1, force, mode, {}, <<>>)} :
+      LET kind == IF r.ok THEN "ok" ELSE "stops" IN
+      /\ "undriven" \notin SeqVals(r.kinds)
+      /\ pick \in {"any", kind}
+      /\ lh' = r.h /\ lp' = r.p /\ ll' = r.g
+      /\ UNCHANGED <<commits, rh, rp, rl>>
+      /\ synced' = SyncedAfter(lh', rh', {})
+      /\ Step("pullall", "", force, r.ok, <<"pullall", "L", "", <<Flag(force), mode>>, kind>>, r.kinds, r.ok, r.rej)
+PullAllOk    == TRUE /\ PullAll("ok")
+PullAllStops == TRUE /\ PullAll("stops")
+
+(* PUSH --all: `push REMOTE refs/heads/b:refs/heads/b` for every branch with an upstream in   *)
+(* name order; a branch that does not exist locally is an error that ends the command (the    *)
+(* earlier ones stay pushed); a rejected push is reported and the command goes on.            *)
+RECURSIVE PushSeq(_, _, _, _, _)
+PushSeq(st, i, force, rej, outs) ==
+  IF i > Len(BranchOrder) THEN [h |-> st.h, p |-> st.p, g |-> st.g, ok |-> TRUE, rej |-> rej, outs |-> outs]
+  ELSE LET b == BranchOrder[i] IN
+       IF H(b) \notin DOMAIN lh
+       THEN [h |-> st.h, p |-> st.p, g |-> st.g, ok |-> FALSE, rej |-> rej, outs |-> Append(outs, "missing")]
+       ELSE LET spec == [src |-> H(b), dst |-> H(b), force |-> FALSE]
+                out  == PushOutcome(Par, Rec(lh, lp), Rec(st.h, st.p), spec, force)
+            IN PushSeq([h |-> PushRefs(Par, Rec(lh, lp), Rec(st.h, st.p), {spec}, force),
+                        p |-> IF Moves(out) THEN st.p \cup AncOf(Par, lh[H(b)]) ELSE st.p,
+                        g |-> IF Moves(out) THEN Bump(st.g, {H(b)}) ELSE st.g],
+                       i + 1, force, IF out = "rejected" THEN rej \cup {H(b)} ELSE rej, Append(outs, out))
+PushedOk(outs) == {BranchOrder[i] : i \in {j \in DOMAIN outs : outs[j] \notin {"rejected", "missing"}}}
+PushAll(pick) ==
+  \E force \in BOOLEAN :
+    \E r \in {PushSeq([h |-> rh, p |-> rp, g |-> rl], 1, force, {}, <<>>)} :
+      LET kind == IF ~r.ok THEN "stops" ELSE IF r.rej # {} THEN "rejected" ELSE "ok" IN
+      /\ pick \in {"any", kind}
+      /\ rh' = r.h /\ rp' = r.p /\ rl' = r.g
+      /\ UNCHANGED <<commits, lh, lp, ll>>
+      /\ synced' = SyncedAfter(lh', rh', PushedOk(r.outs))
+      /\ Step("pushall", "", force, FALSE, <<"pushall", "L", "", Flag(force), kind>>, r.outs, r.ok, r.rej)
+PushAllOk      == TRUE /\ PushAll("ok")
+PushAllRejects == TRUE /\ PushAll("rejected")
+PushAllStops   == TRUE /\ PushAll("stops")
+
+-----------------------------------------------------------------------------
+(* RESET on L: the branch is put on any commit the repository holds *)
+ResetL ==
+  TRUE /\ \E b \in Branches, c \in lp :
+    /\ H(b) \in DOMAIN lh /\ lh[H(b)] # c
+    /\ lh' = Put(lh, H(b), c) /\ ll' = Bump(ll, {H(b)})
+    /\ UNCHANGED <<commits, lp, rh, rp, rl>>
+    /\ synced' = SyncedAfter(lh', rh', {})
+    /\ Step("reset", b, TRUE, FALSE, <<"reset", "L", b, ToString(c), "moved">>, c, TRUE, {})
+
+(* BRANCH --copy / --move on either side: the ref and its log *)
+CopyMove(side, mv, new, old, kind) ==
+  LET h == IF side = "L" THEN lh ELSE rh
+      g == IF side = "L" THEN ll ELSE rl
+      k == IF H(new) \in DOMAIN h THEN "exists" ELSE IF H(old) \notin DOMAIN h THEN "missing" ELSE "done"
+      h2 == IF mv THEN Drop(Put(h, H(new), h[H(old)]), H(old)) ELSE Put(h, H(new), h[H(old)])
+      g2 == IF mv THEN Drop(Put(g, H(new), Cur(g, H(old))), H(old)) ELSE Put(g, H(new), Cur(g, H(old)))
+  IN /\ new # old /\ k = kind
+     /\ IF k # "done" THEN UNCHANGED <<lh, ll, rh, rl>>
+        ELSE IF side = "L" THEN lh' = h2 /\ ll' = g2 /\ UNCHANGED <<rh, rl>>
+        ELSE rh' = h2 /\ rl' = g2 /\ UNCHANGED <<lh, ll>>
+     /\ UNCHANGED <<commits, lp, rp>>
+     /\ synced' = SyncedAfter(lh', rh', {})
+     /\ Step(IF mv THEN "move" ELSE "copy", new, FALSE, FALSE, <<IF mv THEN "move" ELSE "copy", side, new, old, k>>, 0, k = "done", {})
+CopyOk      == TRUE /\ \E side \in {"L", "R"}, new \in Branches, old \in Branches : CopyMove(side, FALSE, new, old, "done")
+CopyRefused == TRUE /\ \E side \in {"L", "R"}, new \in Branches, old \in Branches, k \in {"exists", "missing"} : CopyMove(side, FALSE, new, old, k)
+MoveOk      == TRUE /\ \E side \in {"L", "R"}, new \in Branches, old \in Branches : CopyMove(side, TRUE, new, old, "done")
+MoveRefused == TRUE /\ \E side \in {"L", "R"}, new \in Branches, old \in Branches, k \in {"exists", "missing"} : CopyMove(side, TRUE, new, old, k)
+
+(* OBSERVERS: `wrgl log b` (first-parent chain from the head: x = the head), `wrgl reflog REF` (x = entries) *)
+Observe(name, side) ==
+  LET h == IF side = "L" THEN lh ELSE rh
+      g == IF side = "L" THEN ll ELSE rl IN
+  \E n \in IF name = "log" THEN {m \in DOMAIN h : \E b \in Branches : m = H(b)} ELSE DOMAIN h :
+    /\ KeepHist           \* observers change nothing: they only matter in recorded behaviours
+    /\ UNCHANGED <<commits, lh, lp, ll, rh, rp, rl, synced>>
+    /\ Step(name, "", FALSE, FALSE, <<name, side, n, "", "">>, IF name = "log" THEN h[n] ELSE Cur(g, n), TRUE, {})
+LogL    == TRUE /\ Observe("log", "L")
+LogR    == TRUE /\ Observe("log", "R")
+ReflogL == TRUE /\ Observe("reflog", "L")
+ReflogR == TRUE /\ Observe("reflog", "R")
+
+-----------------------------------------------------------------------------
 (* Initially L is a fresh clone of R, which holds one commit (the full table) on main:   *)
 (* `wrgl commit main` on R, `wrgl pull main` on L.                                        *)
 Init ==
@@ -369,9 +514,11 @@ ActsSplit ==
   \/ FetchClean \/ FetchRejects
   \/ PushNew \/ PushSame \/ PushFF \/ PushForced \/ PushRejects
   \/ MergeIdentical \/ MergeSelfFF \/ MergeFF \/ MergeNoFF \/ MergeNoBase \/ MergeFFOnlyRej
-  \/ MergeNoGuiClean \/ MergeNoGuiConfl \/ MergeReal
+  \/ MergeNoGuiClean \/ MergeNoGuiConfl \/ MergeReal \/ MergeNoCommit \/ MergeCsvCommit
   \/ PullFetchRej \/ PullCreated \/ PullNothing \/ PullNoHeads \/ PullSelfFF \/ PullFF \/ PullNoBase
-  \/ PullFFOnlyRej \/ PullNoGuiClean \/ PullNoGuiConfl \/ PullReal
+  \/ PullFFOnlyRej \/ PullNoGuiClean \/ PullNoGuiConfl \/ PullReal \/ PullNoCommit
+  \/ PullAllOk \/ PullAllStops \/ PushAllOk \/ PushAllRejects \/ PushAllStops
+  \/ ResetL \/ CopyOk \/ CopyRefused \/ MoveOk \/ MoveRefused \/ LogL \/ LogR \/ ReflogL \/ ReflogR
   \/ CreateOk \/ CreateRefused \/ DeleteOk \/ DeleteRefused
   \/ PruneRemoves \/ PruneNothing \/ ExportL \/ ExportR
 \* ... and the same transitions with every outcome computed once per command
@@ -379,10 +526,12 @@ ActsFast ==
   \/ CommitL \/ CommitR \/ FetchAny("any") \/ PushAny("any") \/ MergeAny("any") \/ PullAny("any")
   \/ CreateOk \/ CreateRefused \/ DeleteOk \/ DeleteRefused
   \/ Prune \/ ExportL \/ ExportR
+  \/ PullAll("any") \/ PushAll("any") \/ ResetL \/ CopyOk \/ CopyRefused \/ MoveOk \/ MoveRefused
+  \/ LogL \/ LogR \/ ReflogL \/ ReflogR
 \* Simulation: TLC evaluates (and checks) every successor before it picks one, so the behaviour is
 \* printed by a closing step taken FROM the chosen final state: one line per generated behaviour.
 Close == /\ Len(hist) = D
-         /\ PrintT(<<"SCN", ToJson([c |-> CommitList(commits), h |-> hist])>>)
+         /\ PrintT(<<"SCN", ToJson([c |-> CommitList(commits), h |-> hist, b |-> BranchOrder])>>)
          /\ hist' = Append(hist, [op |-> <<"end", "", "", "", "">>])
          /\ UNCHANGED <<commits, lh, lp, ll, rh, rp, rl, synced, last>>
 Next == IF KeepHist /\ Len(hist) >= D THEN Close ELSE ActsFast
@@ -407,8 +556,10 @@ Inv == TypeOK /\ HeadsClosed /\ PresentClosed /\ Convergence
 
 (* ACTION PROPERTIES *)
 AllRT == {RT(b) : b \in Branches}
-ForcedL == IF last'.force /\ last'.op \in {"fetch", "pull"} THEN AllRT ELSE {}
-ForcedR == IF last'.force /\ last'.op = "push" THEN {H(last'.b)} ELSE {}
+ForcedL == IF last'.force /\ last'.op \in {"fetch", "pull", "pullall"} THEN AllRT
+           ELSE IF last'.op = "reset" THEN {H(last'.b)} ELSE {}
+ForcedR == IF last'.force /\ last'.op = "push" THEN {H(last'.b)}
+           ELSE IF last'.force /\ last'.op = "pushall" THEN {H(b) : b \in Branches} ELSE {}
 \* a ref never moves backwards (or sideways) without force: Sync!RefsForward on every step
 ForwardStep  == /\ RefsForward(ParOf(commits'), lh, lh', ForcedL)
                 /\ RefsForward(ParOf(commits'), rh, rh', ForcedR)
